@@ -560,7 +560,12 @@ impl UntypedProgram {
         for (struct_name, struct_def) in self.struct_defs.iter() {
             let meta = struct_def.meta;
             let mut fields = Vec::with_capacity(struct_def.fields.len());
-            for (name, ty) in struct_def.fields.iter() {
+            for (i, (name, ty)) in struct_def.fields.iter().enumerate() {
+                if struct_def.fields[..i].iter().any(|(f, _)| f == name) {
+                    // field names are unique (lookups by name would see only one of the fields)
+                    let e = TypeErrorEnum::DuplicateStructField(struct_name.clone(), name.clone());
+                    errors.push(Some(TypeError::new(e, meta)));
+                }
                 match ty.as_concrete_type(&top_level_defs) {
                     Ok(ty) => {
                         check_array_size_consts(&ty, &|c| const_types.get(c), meta, &mut errors);
